@@ -275,6 +275,12 @@ func runC02(w *World, r *Report) {
 			r.Fail(VViolation, "size", n, "", "-", "nested element kind no longer exists")
 		}
 	}
+	// every controller-originated message can be the message embedded in a bundle-add
+	for kn := range codes.Controller {
+		if k := w.Kinds[kn]; k != nil && kn != "common.Header" {
+			nested[kn] = k
+		}
+	}
 	var names []string
 	for n := range nested {
 		names = append(names, n)
